@@ -20,6 +20,7 @@ RULE = (
     "*peer* announced, command fragments precede data fragments, only the last fragment of each part is marked last, and the "
     "receiving handler sees exactly the original data-set bytes; non-trivial = the message needed more than one fragment or the "
     "two sides announced different maxima; distinct = distinct (sender max, receiver max, size, mode) tuples (inputs dominate)"
+    " Directed cells enumerate exact encoded data-set lengths around the peer's maximum and its fragment size and the configurations in which one side announces 0 (unlimited) and the other a finite maximum."
 )
 STUBS = ["scripted RawPeer (sender) in the regrouping cases"]
 MAXES = [0, 7, 8, 9, 16, 64, 128, 1024, 16382, 65536, 2 ** 32 - 1]
